@@ -12,99 +12,15 @@ use std::time::{Duration, Instant};
 use vcommon::report::*;
 use vcommon::rng::Rng;
 
-pub const OCTETS: [u8; 7] = [0, 1, 2, 127, 128, 254, 255];
+pub use vcommon::filter::*;
 
-/// rodbus-independent description of a filter
-#[derive(Clone, Debug)]
-pub enum F {
-    Any,
-    Exact(IpAddr),
-    AnyOf(Vec<IpAddr>),
-    /// four fields, None = '*'
-    Wildcard([Option<u8>; 4]),
-}
-
-impl F {
-    pub fn matches(&self, a: IpAddr) -> bool {
-        match self {
-            F::Any => true,
-            F::Exact(x) => *x == a,
-            F::AnyOf(v) => v.contains(&a),
-            F::Wildcard(f) => match a {
-                IpAddr::V4(v4) => v4.octets().iter().zip(f.iter()).all(|(o, p)| p.map(|p| p == *o).unwrap_or(true)),
-                IpAddr::V6(_) => false,
-            },
-        }
-    }
-    pub fn wildcard_string(f: &[Option<u8>; 4]) -> String {
-        f.iter().map(|x| x.map(|v| v.to_string()).unwrap_or("*".into())).collect::<Vec<_>>().join(".")
-    }
-    pub fn to_rodbus(&self) -> Option<AddressFilter> {
-        Some(match self {
-            F::Any => AddressFilter::Any,
-            F::Exact(x) => AddressFilter::Exact(*x),
-            F::AnyOf(v) => AddressFilter::AnyOf(v.iter().copied().collect::<HashSet<_>>()),
-            F::Wildcard(f) => AddressFilter::WildcardIpv4(WildcardIPv4::from_str(&Self::wildcard_string(f)).ok()?),
-        })
-    }
-    pub fn class(&self) -> &'static str {
-        match self {
-            F::Any => "any",
-            F::Exact(IpAddr::V4(_)) => "exact_v4",
-            F::Exact(IpAddr::V6(_)) => "exact_v6",
-            F::AnyOf(_) => "any_of",
-            F::Wildcard(_) => "wildcard",
-        }
-    }
-}
-
-pub fn gen_source(rng: &mut Rng) -> Ipv4Addr {
-    loop {
-        let a = *rng.pick(&OCTETS);
-        let b = *rng.pick(&OCTETS);
-        let c = if rng.chance(1, 4) { rng.u8() } else { *rng.pick(&OCTETS) };
-        if (a, b, c) == (0, 0, 0) || (a, b, c) == (255, 255, 255) {
-            continue;
-        }
-        return Ipv4Addr::new(127, a, b, c);
-    }
-}
-
-pub fn gen_filter(rng: &mut Rng, sources: &[Ipv4Addr]) -> F {
-    match rng.below(10) {
-        0 => F::Any,
-        1 => F::Exact(IpAddr::V4(*rng.pick(sources))),
-        2 => F::Exact(IpAddr::V4(gen_source(rng))),
-        3 => F::Exact(IpAddr::V6(Ipv6Addr::LOCALHOST)),
-        4 | 5 => {
-            let n = 1 + rng.usize_below(5);
-            let mut v = vec![];
-            for _ in 0..n {
-                v.push(match rng.below(4) {
-                    0 => IpAddr::V6(Ipv6Addr::LOCALHOST),
-                    1 => IpAddr::V4(*rng.pick(sources)),
-                    _ => IpAddr::V4(gen_source(rng)),
-                });
-            }
-            F::AnyOf(v)
-        }
-        _ => {
-            // wildcard: derive from a source so that matches are frequent, then perturb
-            let s = rng.pick(sources).octets();
-            let mut f = [None; 4];
-            for i in 0..4 {
-                f[i] = match rng.below(6) {
-                    0 | 1 => None,
-                    2 => Some(*rng.pick(&OCTETS)),
-                    _ => Some(s[i]),
-                };
-            }
-            if rng.chance(1, 5) {
-                f[0] = *rng.pick(&[Some(126), Some(127), Some(128), None]);
-            }
-            F::Wildcard(f)
-        }
-    }
+pub fn to_rodbus(f: &F) -> Option<AddressFilter> {
+    Some(match f {
+        F::Any => AddressFilter::Any,
+        F::Exact(x) => AddressFilter::Exact(*x),
+        F::AnyOf(v) => AddressFilter::AnyOf(v.iter().copied().collect::<HashSet<_>>()),
+        F::Wildcard(w) => AddressFilter::WildcardIpv4(WildcardIPv4::from_str(&F::wildcard_string(w)).ok()?),
+    })
 }
 
 /// is a TCP server with this filter serving this source?
@@ -287,7 +203,7 @@ pub fn run(args: &Args) -> i32 {
                     let mut sources: Vec<Ipv4Addr> = (0..nsrc).map(|_| gen_source(&mut rng)).collect();
                     sources.push(Ipv4Addr::new(127, 0, 0, 1));
                     let f = gen_filter(&mut rng, &sources);
-                    let Some(filter) = f.to_rodbus() else {
+                    let Some(filter) = to_rodbus(&f) else {
                         ev.inconclusive(format!("canonical wildcard string did not parse: {f:?}"));
                         return ev;
                     };
@@ -355,6 +271,36 @@ pub fn run(args: &Args) -> i32 {
         n = hi;
     }
     crate::tls::c16_tls(args, &rt, &mut ev);
+    // C-ABI variants run in the ffi engine (separate process: it owns its own runtime)
+    {
+        let exe = std::env::current_exe().ok().and_then(|p| p.parent().map(|d| d.join("vffi")));
+        let out = verif_root().join("out").join(format!("c16ffi-{}.json", std::process::id()));
+        let _ = std::fs::create_dir_all(verif_root().join("out"));
+        match exe {
+            Some(exe) if exe.exists() => {
+                let st = std::process::Command::new(&exe)
+                    .arg("c16ffi")
+                    .arg("--tier")
+                    .arg(args.tier.name())
+                    .arg("--seed")
+                    .arg((args.seed as i64).to_string())
+                    .arg("--out")
+                    .arg(&out)
+                    .stdout(std::process::Stdio::null())
+                    .status();
+                match (st, std::fs::read_to_string(&out).ok().and_then(|t| serde_json::from_str::<serde_json::Value>(&t).ok())) {
+                    (Ok(s), Some(v)) if s.success() => {
+                        let e = Evidence::from_json(&v);
+                        ev.count("c_abi_connections_observed", e.counters.get("connections_observed").copied().unwrap_or(0) + e.counters.get("tls_connections_observed").copied().unwrap_or(0));
+                        ev.merge(e);
+                    }
+                    _ => ev.inconclusive("the ffi engine did not deliver its part of the C16 evidence"),
+                }
+                let _ = std::fs::remove_file(&out);
+            }
+            _ => ev.inconclusive("vffi binary not found next to vnet"),
+        }
+    }
     let meta = Meta {
         property_id: "C16",
         level: "exploration",
@@ -368,6 +314,7 @@ pub fn run(args: &Args) -> i32 {
             ("connections_observed".into(), args.tier.pick(500, 20_000)),
             ("parser_strings".into(), args.tier.pick(400_000, 10_000_000)),
             ("tls_connections_observed".into(), args.tier.pick(60, 600)),
+            ("c_abi_connections_observed".into(), args.tier.pick(60, 800)),
         ],
         min_classes: 12,
     };
